@@ -125,6 +125,18 @@ def ob_ordering(h):
         h.check("total_site_recovery_is_zonal_recovery_plus_hot_utility_saved", abs(ts.Qr - (tp.Qr + (tp.Qh - ts.Qh))) <= eps)
 
 
+def _deps(module, names, prefix, why):
+    """callee contracts this property's clauses are stated against, discharged here as well (same harness objects, other names)"""
+    out = []
+    for o in module.obligations():
+        base = o.name.split("[")[0]
+        if base in names and o.tier == "quick":
+            out.append(Obligation(o.name.replace(base.split(".")[0] + ".", prefix, 1), o.fn, kind=o.kind, functions=o.functions, bound=o.bound, max_paths=o.max_paths, params=o.params,
+                                  timeout_ms=o.timeout_ms, expect=o.expect, stubs=o.stubs, runner=o.runner, time_budget_s=o.time_budget_s,
+                                  doc=f"(callee contract, shared with {base.split('.')[0]}: {why}) " + (o.doc or "")))
+    return out
+
+
 def obligations():
     obs = []
     for o in C02.obligations():
@@ -136,4 +148,6 @@ def obligations():
     obs.append(Obligation("C09.ordering.b", ob_ordering, kind="smallscope", functions=[main.pinch_analysis_service], max_paths=10000,
                           bound=f"{len(SITES)} sites (1..3 zones, nested labels) x {len(LADDERS)} utility ladders, real service run natively (exhaustive)",
                           doc="ORDER: DI(site) <= TS <= sum of zones on the returned records (the lower bound has no contract in reach: small native scope only)"))
+    from . import C03
+    obs += _deps(C03, ("C03.utilities_list.b",), "C09.dep.", "utility streams start from zero duty, so zone sums contain assigned duties only")
     return obs
